@@ -95,7 +95,7 @@ def run_check(prop, tier="quick", replay=None):
     seed = int(os.environ.get("VERIF_SEED", "0") or 0)
     mod = importlib.import_module(prop)
     rep = Report(prop)
-    ctx = Ctx(tier)
+    ctx = Ctx(tier, config=os.environ.get("VERIF_CONFIG", "default"))
     fatal = None
     try:
         mod.run(ctx, rep)
